@@ -4,23 +4,23 @@
    Only statements; every proof is `exact <lemma of RunZProofs>`.
    MODEL: RunZ.zdot (tensor.Dot on two registered tensors, V := Z) and RunZ.ztensormul
    (Dense.TensorMul: clones, lazy T so that the contracted axes come last / first, physical Transpose,
-   Reshape to matrices, Dot, Reshape of the product, the clones dropped from the tensor table).
+   Reshape to matrices, MatMul, Reshape of the product, the clones dropped from the tensor table).
    Vocabulary: plain2 / mat_ok / vec_shape / ent / mm_sum / mv_sum (LinalgProofs, see PropC09.v);
    rm_tensor σ d = pos_shape, default row-major strides, d_len = size, nothing pending, row-major bit,
    window inside the allocation; zat σ d c = the logical element at c; free_axes, exts, tm_prep,
    ztensormul_steps (RunZProofs).
-   WHAT HOLDS AND WHAT DOES NOT:
-   * proved: Dot in its four shape cases (D1); TensorMul for ALL axis choices and ranks on contiguous
-     row-major operands whenever the contracted extents multiply to more than 1, or no reshaped operand
-     is vector-shaped (D3; D2 is the matrix instance);
-   * refuted (proved in general and on examples): when the contracted extents multiply to 1 and a free
-     part has more than one element the model returns an error (store untouched) — a well-formed
-     contraction, e.g. the outer product, is refused. *)
+   WHAT HOLDS:
+   * Dot in its four shape cases (D1);
+   * TensorMul for ALL axis choices, ranks and extents >= 1 on contiguous row-major operands (D3; D2 is the
+     matrix instance).  The reshaped operands [size ret1; size ka] and [size ka; size ret2] are multiplied by
+     MatMul, which only asks for rank 2: contracted extents multiplying to 1 (the outer product with no
+     axes, contracted unit axes) and full contractions are covered like every other case — there is NO
+     guard on the extents (the former shape-dispatching Dot refused or mis-shaped these; examples below). *)
 From TV Require Import Base Index AP Iter Mem Spec Guards Run Ops Reduce Shapeops Linalg RunZ
      IndexProofs IterProofs APProofs MemProofs OpsProofs LinalgProofs ReduceProofs RunZProofs.
 
 (* D1, matrix . matrix.  Operands plain or lazily transposed (mat_ok), not vector-shaped (Dot looks at
-   the shapes first: a k x 1 or 1 x k operand takes a vector branch, see C09_zdot_prepared).  The
+   the shapes first: a k x 1 or 1 x k operand takes a vector branch).  The
    product is tensor number |tens σ| in a NEW allocation, shape [m;n] (plain2), entries the textbook
    sums  zmm_sum σ a b k i j = sum_{l<k} a[i,l]*b[l,j]  (ascending l, from 0); the tensor table only
    grows by the result and every old allocation is unchanged (so the operands are). *)
@@ -268,7 +268,7 @@ Theorem C09_ztensormul_chain :
   tm_prep σ3 ib (axesB ++ free_axes (length (shp (d_ap b))) axesB)
     [size (exts (shp (d_ap a)) axesA); size (shp (d_ap b)) ÷ size (exts (shp (d_ap a)) axesA)] = 
   Ok σ4 ->
-  zdot σ4 ia ib = (σ5, RNew Z p) ->
+  lres_outcome σ4 (m_matmul Z 0 Z.add Z.mul σ4 ia ib LSafe) = (σ5, RNew Z p) ->
   m_reshape Z σ5 p
     match
       exts (shp (d_ap a)) (free_axes (length (shp (d_ap a))) axesA) ++
@@ -284,11 +284,11 @@ Theorem C09_ztensormul_chain :
 Proof. exact ztensormul_chain. Qed.
 Print Assumptions C09_ztensormul_chain.
 
-(* D3 (iv): Dot on the prepared operands, ALL FOUR dispatch cases: contiguous fA x n2 and n2 x fB.
-   If n2 > 1 a vector-shaped operand has free size 1 and the vector branches (Inner / MatVecMul /
-   T-MatVecMul-UT) deliver the same numbers; the result is always a fresh contiguous tensor of fA*fB
-   cells whose cell i*fB+j is the (i,j) entry of the product *)
-Theorem C09_zdot_prepared :
+(* D3 (iv): MatMul on the prepared operands: contiguous fA x n2 and n2 x fB with ANY extents >= 1
+   (k x 1, 1 x k and 1 x 1 included: MatMul asks for rank 2 only); the result is a fresh contiguous tensor
+   of fA*fB cells whose cell i*fB+j is the (i,j) entry of the product.  lres_outcome registers the fresh
+   result in the tensor table. *)
+Theorem C09_matmul_prepared :
   forall (σ : store Z) (ta tb : nat) (A B : dense) (fA n2 fB : Z),
   get_t Z σ ta = Some A ->
   get_t Z σ tb = Some B ->
@@ -297,11 +297,10 @@ Theorem C09_zdot_prepared :
   1 <= fB ->
   plain2 A fA n2 ->
   plain2 B n2 fB ->
-  1 < n2 \/ is_vector [fA; n2] = false /\ is_vector [n2; fB] = false ->
   in_buf Z σ A ->
   in_buf Z σ B ->
   exists (σ' : store Z) (P : dense),
-    zdot σ ta tb = (σ', RNew Z (length (tens Z σ))) /\
+    lres_outcome σ (m_matmul Z 0 Z.add Z.mul σ ta tb LSafe) = (σ', RNew Z (length (tens Z σ))) /\
     tens Z σ' = tens Z σ ++ [P] /\
     d_buf P = length (bufs Z σ) /\
     rm_tensor σ' P /\
@@ -311,8 +310,8 @@ Theorem C09_zdot_prepared :
      0 <= i < fA -> 0 <= j < fB -> win_get Z σ' P (i * fB + j) = Some (zmm_sum σ A B n2 i j)) /\
     length (bufs Z σ') = S (length (bufs Z σ)) /\
     (forall q : nat, (q < length (bufs Z σ))%nat -> get_buf Z σ' q = get_buf Z σ q).
-Proof. exact zdot_prepared. Qed.
-Print Assumptions C09_zdot_prepared.
+Proof. exact matmul_prepared. Qed.
+Print Assumptions C09_matmul_prepared.
 
 (* the common first half of TensorMul (clones, lazy T, Transpose, Reshape of both operands) *)
 Theorem C09_tensormul_prepared :
@@ -365,8 +364,9 @@ Theorem C09_tensormul_prepared :
 Proof. exact tm_prepared. Qed.
 Print Assumptions C09_tensormul_prepared.
 
-(* D2: two matrices, axesA = [1], axesB = [0] (T is a no-op): RNew |tens σ|, shape [m;n], matmul entries,
-   the tensor table grows by exactly one entry (the two clones are dropped), old allocations unchanged *)
+(* D2: two matrices of ANY extents >= 1 (vector-shaped m x 1, 1 x n, 1 x 1 included), axesA = [1],
+   axesB = [0] (T is a no-op): RNew |tens σ|, shape [m;n], matmul entries, the tensor table grows by
+   exactly one entry (the two clones are dropped), old allocations unchanged *)
 Theorem C09_ztensormul_matrix_case :
   forall (σ : store Z) (ta tb : nat) (a b : dense) (m k n : Z),
   get_t Z σ ta = Some a ->
@@ -378,8 +378,6 @@ Theorem C09_ztensormul_matrix_case :
   plain2 b k n ->
   in_buf Z σ a ->
   in_buf Z σ b ->
-  is_vector [m; k] = false ->
-  is_vector [k; n] = false ->
   exists (σ' : store Z) (dp : dense),
     ztensormul σ ta tb [1] [0] = (σ', RNew Z (length (tens Z σ))) /\
     tens Z σ' = tens Z σ ++ [dp] /\
@@ -397,8 +395,8 @@ Print Assumptions C09_ztensormul_matrix_case.
 (* D3, THE GENERAL CONTRACTION.  Operands: registered, contiguous row-major, nothing pending, all extents
    >= 1, window inside its allocation (rm_tensor; views allowed; ta = tb allowed).  Axes: duplicate-free,
    in range, equally many, equal extents.  ka = contracted extents, ret1 / ret2 = free extents of a / b.
-   GUARD: size ka > 1, or neither reshaped operand ([size ret1; size ka], [size ka; size ret2]) is
-   vector-shaped; outside it the model REFUSES: C09_ztensormul_unit_contraction_refused.
+   NO GUARD on the extents: size ka = 1 (no contracted axes = the outer product, contracted unit axes) and
+   size ret1 = 1 / size ret2 = 1 (full contractions) are covered.
    Result: tensor number |tens σ|, the table grows by exactly this entry, documented shape
    ret1 ++ ret2 ([1] when empty), contiguous; every old allocation unchanged; entry at ca ++ cb =
    fold_left + over coords ka of  a[place axesA kc ca] * b[place axesB kc cb]  starting from 0, i.e. the
@@ -420,7 +418,6 @@ Theorem C09_ztensormul_spec :
   let ka := exts (shp (d_ap a)) axesA in
   let ret1 := exts (shp (d_ap a)) (free_axes na axesA) in
   let ret2 := exts (shp (d_ap b)) (free_axes nb axesB) in
-  1 < size ka \/ is_vector [size ret1; size ka] = false /\ is_vector [size ka; size ret2] = false ->
   exists (σ' : store Z) (dp : dense),
     ztensormul σ ta tb axesA axesB = (σ', RNew Z (length (tens Z σ))) /\
     tens Z σ' = tens Z σ ++ [dp] /\
@@ -456,51 +453,30 @@ Theorem C09_zat_is_at :
 Proof. exact zat_is_at. Qed.
 Print Assumptions C09_zat_is_at.
 
-(* WHAT THE MODEL MAKES FALSE.  Contracted extents multiplying to 1 (e.g. NO axes: the outer product, or
-   a contracted axis of extent 1) and a free part with more than one element: TensorMul returns an ERROR
-   and leaves the store untouched, although the SPEC has a value.  (Column vector . row vector: length
-   mismatch, or an inner product that cannot be reshaped; column vector . 1x1 and 1x1 . row vector: the
-   MatVecMul shape check.)  Together with C09_ztensormul_spec this decides every well-formed contraction
-   of contiguous row-major operands. *)
-Theorem C09_ztensormul_unit_contraction_refused :
-  forall (σ : store Z) (ta tb : nat) (a b : dense) (axesA axesB : list Z),
-  get_t Z σ ta = Some a ->
-  get_t Z σ tb = Some b ->
-  rm_tensor σ a ->
-  rm_tensor σ b ->
-  NoDup axesA ->
-  NoDup axesB ->
-  (forall x : Z, In x axesA -> 0 <= x < Z.of_nat (length (shp (d_ap a)))) ->
-  (forall x : Z, In x axesB -> 0 <= x < Z.of_nat (length (shp (d_ap b)))) ->
-  length axesA = length axesB ->
-  exts (shp (d_ap a)) axesA = exts (shp (d_ap b)) axesB ->
-  let na := length (shp (d_ap a)) in
-  let nb := length (shp (d_ap b)) in
-  let ka := exts (shp (d_ap a)) axesA in
-  let ret1 := exts (shp (d_ap a)) (free_axes na axesA) in
-  let ret2 := exts (shp (d_ap b)) (free_axes nb axesB) in
-  size ka = 1 -> 1 < size ret1 \/ 1 < size ret2 -> ztensormul σ ta tb axesA axesB = (σ, RErr Z).
-Proof. exact ztensormul_unit_contraction_refused. Qed.
-Print Assumptions C09_ztensormul_unit_contraction_refused.
-
-(* ... on concrete operands, next to the SPEC's answer (Ex.spec_tm = spec_tensormul_vals on the same two
-   tensors): 2x1 . 1x3;  outer product of [1 2] and [4 5 6] with no axes;  1x1 . 1x5;  3x1 . 1x3 *)
-Example C09_tensormul_unit_contraction_refused_examples :
-  (let σ := Ex.mk2 [2; 1] [1; 2] [1; 3] [4; 5; 6] in
-   ztensormul σ 0 1 [1] [0] = (σ, RErr Z) /\
+(* CONTRACTED EXTENTS MULTIPLYING TO 1, AND THE FULL CONTRACTION, on concrete operands next to the SPEC's
+   answer (Ex.spec_tm = spec_tensormul_vals on the same two tensors; Ex.res_shape / Ex.res_vals = shape and
+   logical contents of the returned tensor):  2x1 . 1x3;  outer product of [1 2] and [4 5 6] with no axes;
+   1x1 . 1x5;  3x1 . 1x3;  [1 2 3] . [4 5 6] over axes [0],[0] (shape [1], value 32).  (With the former
+   shape-dispatching Dot in place of MatMul the first four were refused with an error.) *)
+Example C09_tensormul_unit_contraction_examples :
+  (let r := ztensormul (Ex.mk2 [2; 1] [1; 2] [1; 3] [4; 5; 6]) 0 1 [1] [0] in
+   snd r = RNew Z 2 /\ Ex.res_shape r = [2; 3] /\ Ex.res_vals r = map Ok [4; 5; 6; 8; 10; 12] /\
    Ex.spec_tm (Ex.spec2 [2; 1] [1; 2] [1; 3] [4; 5; 6]) [1] [0] = Some ([2; 3], [4; 5; 6; 8; 10; 12])) /\
-  (let σ := Ex.mk2 [2] [1; 2] [3] [4; 5; 6] in
-   ztensormul σ 0 1 [] [] = (σ, RErr Z) /\
+  (let r := ztensormul (Ex.mk2 [2] [1; 2] [3] [4; 5; 6]) 0 1 [] [] in
+   snd r = RNew Z 2 /\ Ex.res_shape r = [2; 3] /\ Ex.res_vals r = map Ok [4; 5; 6; 8; 10; 12] /\
    Ex.spec_tm (Ex.spec2 [2] [1; 2] [3] [4; 5; 6]) [] [] = Some ([2; 3], [4; 5; 6; 8; 10; 12])) /\
-  (let σ := Ex.mk2 [1; 1] [3] [1; 5] [1; 2; 3; 4; 5] in
-   ztensormul σ 0 1 [1] [0] = (σ, RErr Z) /\
+  (let r := ztensormul (Ex.mk2 [1; 1] [3] [1; 5] [1; 2; 3; 4; 5]) 0 1 [1] [0] in
+   snd r = RNew Z 2 /\ Ex.res_shape r = [1; 5] /\ Ex.res_vals r = map Ok [3; 6; 9; 12; 15] /\
    Ex.spec_tm (Ex.spec2 [1; 1] [3] [1; 5] [1; 2; 3; 4; 5]) [1] [0] = Some ([1; 5], [3; 6; 9; 12; 15])) /\
-  (let σ := Ex.mk2 [3; 1] [1; 2; 3] [1; 3] [4; 5; 6] in
-   ztensormul σ 0 1 [1] [0] = (σ, RErr Z) /\
+  (let r := ztensormul (Ex.mk2 [3; 1] [1; 2; 3] [1; 3] [4; 5; 6]) 0 1 [1] [0] in
+   snd r = RNew Z 2 /\ Ex.res_shape r = [3; 3] /\ Ex.res_vals r = map Ok [4; 5; 6; 8; 10; 12; 12; 15; 18] /\
    Ex.spec_tm (Ex.spec2 [3; 1] [1; 2; 3] [1; 3] [4; 5; 6]) [1] [0] =
-   Some ([3; 3], [4; 5; 6; 8; 10; 12; 12; 15; 18])).
-Proof. exact tensormul_unit_contraction_refused_examples. Qed.
-Print Assumptions C09_tensormul_unit_contraction_refused_examples.
+   Some ([3; 3], [4; 5; 6; 8; 10; 12; 12; 15; 18])) /\
+  (let r := ztensormul (Ex.mk2 [3] [1; 2; 3] [3] [4; 5; 6]) 0 1 [0] [0] in
+   snd r = RNew Z 2 /\ Ex.res_shape r = [1] /\ Ex.res_vals r = map Ok [32] /\
+   Ex.spec_tm (Ex.spec2 [3] [1; 2; 3] [3] [4; 5; 6]) [0] [0] = Some ([1], [32])).
+Proof. exact tensormul_unit_contraction_examples. Qed.
+Print Assumptions C09_tensormul_unit_contraction_examples.
 
 (* ====================================================================================== *)
 (* NON-VACUITY.  (1) The hypotheses of C09_ztensormul_spec hold on a non-trivial store, and the model,
@@ -533,6 +509,31 @@ Proof.
   - vm_compute. repeat split.
 Qed.
 Print Assumptions C09b_tensormul_example.
+
+(* (1') the same for a case the theorem did not cover before: the outer product of [1 2] and [4 5 6]
+   (no contracted axes: ka = [], size ka = 1, the reshaped operands are 2x1 and 1x3) *)
+Example C09b_tensormul_outer_example :
+  let σ := Ex.mk2 [2] [1; 2] [3] [4; 5; 6] in
+  let r := ztensormul σ 0 1 [] [] in
+  (exists a b,
+     get_t Z σ 0 = Some a /\ get_t Z σ 1 = Some b /\ rm_tensor σ a /\ rm_tensor σ b /\
+     shp (d_ap a) = [2] /\ shp (d_ap b) = [3] /\
+     size (exts (shp (d_ap a)) []) = 1 /\
+     exts (shp (d_ap a)) (free_axes 1 []) = [2] /\ exts (shp (d_ap b)) (free_axes 1 []) = [3]) /\
+  snd r = RNew Z 2 /\
+  Ex.res_shape r = [2; 3] /\
+  Ex.res_vals r = map Ok [4; 5; 6; 8; 10; 12] /\
+  length (tens Z (fst r)) = 3%nat /\
+  firstn 2 (tens Z (fst r)) = tens Z σ /\ firstn 2 (bufs Z (fst r)) = bufs Z σ.
+Proof.
+  split.
+  - eexists. eexists. split; [reflexivity|]. split; [reflexivity|].
+    split; [unfold rm_tensor; cbn; repeat split; try reflexivity; try lia; repeat constructor; lia|].
+    split; [unfold rm_tensor; cbn; repeat split; try reflexivity; try lia; repeat constructor; lia|].
+    repeat split.
+  - vm_compute. repeat split.
+Qed.
+Print Assumptions C09b_tensormul_outer_example.
 
 Example C09b_dot_vecmat_example :
   let σ := Ex.mk2 [3] [1; 1; 2] [3; 2] (zseq 1 6) in
